@@ -35,8 +35,7 @@ type boundedResult struct {
 }
 
 func (r *boundedResult) describe() string {
-	return fmt.Sprintf("harness %s, every history of at most %d steps over %d replicas (%s histories executed on the real code)",
-		r.Harness, r.Depth, r.Replicas, r.Summary["histories"])
+	return fmt.Sprintf("harness %s: %s (%s cases executed on the real code)", r.Harness, r.Summary["bound"], r.Summary["histories"])
 }
 
 func (r *boundedResult) coverage() map[string]interface{} {
@@ -47,11 +46,11 @@ func (r *boundedResult) coverage() map[string]interface{} {
 		"harness":             r.File,
 		"stands_in_for":       r.Functions,
 		"reason":              r.Why,
-		"bound":               fmt.Sprintf("history length <= %d, replicas = %d, alphabet = %s steps, fixed start state (see the harness header)", r.Depth, r.Replicas, r.Summary["alphabet"]),
-		"histories":           n,
+		"bound":               r.Summary["bound"],
+		"cases":               n,
 		"steps_executed":      st,
 		"exhaustive_in_bound": r.Err == "",
-		"failing_histories":   len(r.Fails),
+		"failing_cases":       len(r.Fails),
 		"sample":              r.Summary["sample"],
 		"cmd":                 r.Cmd,
 		"wall_s":              r.Secs,
@@ -118,6 +117,9 @@ func runBounded(r *boundedResult, pkgPath, tier string) {
 			sawSummary = true
 			for _, m := range sumKV.FindAllStringSubmatch(l[i:], -1) {
 				r.Summary[m[1]] = strings.Trim(m[2], "[]")
+			}
+			if k := strings.Index(l, "sample=["); k >= 0 { // the sample comes last and may contain brackets
+				r.Summary["sample"] = strings.TrimSuffix(strings.TrimSpace(l[k+len("sample=["):]), "]")
 			}
 		}
 	}
